@@ -21,6 +21,7 @@ func c06case(c GCase, a *run.Acc, variant int) {
 	c.Pos = 0
 	a.Count("cases", 1)
 	o := sentenceOpts{Named: variant&1 == 1, NameSeqs: variant&2 == 2 && variant&1 == 1, ExplicitEnd: variant&4 == 4}
+	o.NameOptionals = o.NameSeqs
 	if variant&8 == 8 {
 		o.Before = []int{3 + variant%5, variant % 3}
 	}
